@@ -29,6 +29,10 @@ package util
 //@   ensures result1 == nil ==> result0 != nil
 //@   ensures result1 != nil ==> result0 == nil
 //@
+//@ // strings.Split with a non-empty separator returns at least one element
+//@ extern strings.Split
+//@   ensures sep != "" ==> len(result) >= 1
+//@
 //@ // ---- C19: hierarchical configuration values ----
 //@ // viper's view of the configuration: uninterpreted functions of the key (the configuration is not changed while
 //@ // a lookup runs)
